@@ -5,6 +5,7 @@
 Require Import Coq.Strings.String.
 From Verif Require Import Base.Prim Base.Str Cbor.Codec Cbor.CodecFacts Cbor.DecodeSound Suit.Py Suit.PyFacts Suit.Ty Suit.Interp Suit.Tables Suit.Digest
                           Suit.Embed Suit.Flat Suit.Reparse Suit.ByteTrip Suit.SpecTypes Suit.SpecEnc gen.GenTypes gen.GenSpec.
+From Verif Require Suit.Typed Suit.Refine.
 Open Scope Z_scope.
 
 (* 1. the grammar tables of the tool ARE the pinned grammar: which member carries which node type, every `bstr .cbor`
@@ -146,3 +147,57 @@ Example spec_command_sequence :
              CMap [(CText (s2b "suit-condition-image-match"), CArray [CText (s2b "suit-send-record-failure"); CText (s2b "suit-send-sysinfo-failure")])]])
   = Ok (CArray [CUint 12; CUint 1; CUint 3; CUint 10]).
 Proof. vm_compute. reflexivity. Qed.
+
+
+(* REFINEMENT — the general theorem: the object model computes the encoding the specification assigns.
+   For EVERY budget of each side (f: reading the description, g: the specification, h: the encoder), every class t of a
+   well-formed table and every normal description d (a description whose integers and lengths fit 64 bits, whose texts are
+   UTF-8 and whose maps have pairwise different keys):
+     * if reading d gives the tree v, the specification gives the item c and the encoder writes b for v, then b = ser c and c
+       is a normal item: nothing dropped, duplicated, reordered or re-typed anywhere in the description;
+     * the two sides agree on "not this alternative": when reading succeeds the specification does not answer ValueError and
+       conversely — so both choose the same alternative of every union, at every depth.
+   The classes whose value comes from outside the description (is_special: UUIDs from names, sizes and digests of files,
+   versions, raw encryption info, payload maps, a bare optional header map) are delegated: Hsp assumes for them what the
+   theorem states for the others.  json_loads (keys of text maps written as JSON) is an oracle that returns normal objects. *)
+Theorem object_model_refines_specification env hn H u5 fs jl jd sev sp sd special hm_m hm_emb :
+  Typed.env_wf env = true ->
+  (forall s j, jl s = Ok j -> normal j) ->
+  (forall f h t d, is_special t = true -> Typed.wf env t = true -> normal d -> Refine.okC (from_obj env hn H u5 fs jl jd sev sp sd f t d) (special t d) (to_cbor env h t)) ->
+  lookup (s2b "SuitEmptyBstr") env = Some TEmptyBstr -> lookup (s2b "SuitHeaderMap") env = Some (TKeyValue hm_m hm_emb) ->
+  forall f g h t d, Typed.wf env t = true -> normal d ->
+    match from_obj env hn H u5 fs jl jd sev sp sd f t d, spec_item env jl special g t d with
+    | Ok v, Ok c => normal c /\ forall b, to_cbor env h t v = Ok b -> b = ser c
+    | Ok _, Raise e => e <> ValueError
+    | Raise e, Ok _ => e <> ValueError
+    | Raise _, Raise _ => True
+    end.
+Proof. intros Henv Hjl Hsp Heb Hhm f g h t d Hw Hn. exact (Refine.refines env hn H u5 fs jl jd sev sp sd special Henv Hjl Hsp hm_m hm_emb Heb Hhm f g h t d Hw Hn). Qed.
+Print Assumptions object_model_refines_specification.
+
+(* the same for the regenerated table, with a specification side that declines on the delegated classes: no hypothesis about
+   them is left (the table conditions are computed) *)
+Theorem created_bytes_are_the_specified_encoding hn H u5 fs jl jd sev sp sd :
+  (forall s j, jl s = Ok j -> normal j) ->
+  forall f g h t d v c b, Typed.wf types t = true -> normal d ->
+    from_obj types hn H u5 fs jl jd sev sp sd f t d = Ok v -> spec_item types jl (fun _ _ => Raise Unsupported) g t d = Ok c -> to_cbor types h t v = Ok b ->
+    b = ser c /\ normal c.
+Proof.
+  intros Hjl f g h t d v c b Hw Hn Ev Ec Eb.
+  assert (Henv : Typed.env_wf types = true) by (vm_compute; reflexivity).
+  assert (Hhm : exists m emb, lookup (s2b "SuitHeaderMap") types = Some (TKeyValue m emb)) by (vm_compute; eauto).
+  destruct Hhm as (m & emb & Hhm).
+  pose proof (Refine.refines types hn H u5 fs jl jd sev sp sd (fun _ _ => Raise Unsupported) Henv Hjl
+                (fun f0 h0 t0 d0 _ _ _ => Refine.no_delegation types hn H u5 fs jl jd sev sp sd f0 h0 t0 d0) m emb ltac:(vm_compute; reflexivity) Hhm f g h t d Hw Hn) as R.
+  unfold Refine.okS in R. rewrite Ev, Ec in R. destruct R as [Hnc Hb]. split; [exact (Hb b Eb)|exact Hnc].
+Qed.
+Print Assumptions created_bytes_are_the_specified_encoding.
+
+(* non-vacuity: a command sequence of the regenerated grammar is read, specified and encoded — all three succeed *)
+Example refinement_is_not_vacuous :
+  let d := CArray [CMap [(CText (s2b "suit-directive-set-component-index"), CUint 1)]; CMap [(CText (s2b "suit-condition-image-match"), CArray [])]] in
+  let t := TRef (s2b "SuitCommandSequence") in
+  Typed.wf types t = true /\ normalb d = true
+  /\ exists v c b, from_obj types [] (fun _ _ => Raise Unsupported) (fun _ _ => Raise Unsupported) (fun _ => None) (fun _ => Raise ValueError) (fun _ => Raise Unsupported) [] [] [] 20 t d = Ok v
+       /\ spec_item types (fun _ => Raise ValueError) (fun _ _ => Raise Unsupported) 20 t d = Ok c /\ to_cbor types 20 t v = Ok b /\ b = ser c.
+Proof. cbv zeta. split; [vm_compute; reflexivity|]. split; [vm_compute; reflexivity|]. eexists. eexists. eexists. split; [vm_compute; reflexivity|]. split; [vm_compute; reflexivity|]. split; vm_compute; reflexivity. Qed.
